@@ -1,0 +1,15 @@
+//go:build verif
+
+package fluentdforward
+
+// VerifSetChunkLimits sets the otherwise unexported chunk limits; only compiled with the "verif" build tag, for the
+// simulation harness under /verif (the package's own tests set the same variables directly)
+func VerifSetChunkLimits(maxSizeBytes int, maxRecords int) {
+	chunkMaxSizeBytes = maxSizeBytes
+	chunkMaxRecords = maxRecords
+}
+
+// VerifGetChunkLimits returns the current chunk limits
+func VerifGetChunkLimits() (maxSizeBytes int, maxRecords int) {
+	return chunkMaxSizeBytes, chunkMaxRecords
+}
